@@ -158,8 +158,12 @@ class Sched:
         try:
             for t in self.unfinished_tasks():
                 t.cancel()
-            self.loop.call_soon(self.loop.stop)
-            self.loop.run_forever()
+            for _ in range(200):
+                # cancelled coroutines may await again while they unwind (gates are open now)
+                self.loop.call_soon(self.loop.stop)
+                self.loop.run_forever()
+                if not self.unfinished_tasks() and not self._busy():
+                    break
             self.loop.run_until_complete(self.loop.shutdown_asyncgens())
         except Exception:  # noqa: BLE001
             pass
